@@ -3871,6 +3871,9 @@ class Shape(SVGElement, GraphicObject, Transformable):
                 segment_pos = (position - segment_start) / (segment_end - segment_start)
                 break
             segment_start = segment_end
+        else:
+            # The fractions summed to slightly less than the position: it is the end of the last segment.
+            segment_pos = 1.0
         return segment.point(segment_pos)
 
     def length(self, error=ERROR, min_depth=MIN_DEPTH):
